@@ -164,6 +164,8 @@ Proof.
   all: try (right; right; eexists; split; [reflexivity|]; apply N.eqb_eq in Heqb || idtac; congruence).
   - exfalso. destruct apd; destruct ((0 <? r_n r) || r_hs r && r_tv r); destruct (negb (opt_fsync c) || r_hs r && r_tv r);
       cbn in Hs'; congruence.
+  - exfalso. destruct ((0 <? r_n r) || r_hs r && r_tv r); destruct (negb (opt_fsync c) || r_hs r && r_tv r);
+      cbn in Hs'; congruence.
   - right; right; eexists; split; [reflexivity|];
     match goal with G : negb (_ =? _) = false |- _ => apply negb_false_iff in G; apply N.eqb_eq in G; subst end; congruence.
   - right; right; eexists; split; [reflexivity|];
@@ -322,3 +324,44 @@ Proof. eexists. vm_compute. repeat split; reflexivity. Qed.
    coq/Data/Batch.v): the model's engine takes it as its interface *)
 Lemma replay_grouping : forall a b c, a <= b -> b <= c -> range a b ++ range b c = range a c.
 Proof. intros a b c H1 H2. symmetry. apply range_app; assumption. Qed.
+
+(* ---------- the same installation when the Save of the hard state cuts the WAL segment ---------- *)
+
+(* wal.Save finds the tail segment over its size after it has encoded the hard state: cut() flushes the old segment
+   (the record of the snapshot is valid from here on) and starts a new one named after the snapshot's index *)
+Definition ev_install_cut (a i : N) (fetch : list event) : list event :=
+  ev_install_head a (rdy_snap i) ++ fetch ++
+  [EvAsPrepared i; EvRdSaveSnapBefore i; EvRdSnapFile i; EvRdSaveSnapAfter i; EvRdSaveBefore; EvCutBefore (i + 1); EvCutAfter (i + 1); EvRdSaveAfter;
+   EvRdApplySnapBefore i; EvAsRaftDone i; EvRsRemoved i; EvRsCopied i; EvRsMarkerGone; EvAsRestored i;
+   EvRdApplySnapAfter i; EvRdReleaseAfter i; EvRdAppendAfter; EvRdAdvance] ++ ev_install_end i.
+
+Lemma install_cut_example :
+  exists s, run (cfg2 true) init_state (trace_follower_base ++ ev_install_cut 6 9 (ev_fetch 9)) = Ok s
+    /\ sched_holds_run (cfg2 true) init_state (trace_follower_base ++ ev_install_cut 6 9 (ev_fetch 9)) = true
+    /\ engine s = Some [1; 2; 3; 4; 5; 6; 7; 8; 9] /\ applied s = 9 /\ rs_last s = 9 /\ map sfirst (segs s) = [3; 5; 10]
+    /\ recover_state s 0 0 = Ok [1; 2; 3; 4; 5; 6; 7; 8; 9].
+Proof. eexists. vm_compute. repeat split; reflexivity. Qed.
+
+Definition install_cut_crash_check (n j extra : nat) : bool :=
+  match run (cfg2 true) init_state (trace_follower_base ++ firstn n (ev_install_cut 6 9 (ev_fetch 9))) with
+  | Err _ => false
+  | Ok s =>
+    match image s j extra with
+    | None => true
+    | Some _ =>
+      match crash_restart (cfg2 true) s j extra with
+      | Err _ => false
+      | Ok s1 =>
+        (serves s1 5 || serves s1 9)
+        && match converge (cfg2 true) s1 9 with
+           | Ok s2 => serves s2 9 && match recover_state s2 0 0 with Ok l => eq_listN l (range 0 9) | Err _ => false end
+           | Err _ => false
+           end
+      end
+    end
+  end.
+
+Lemma install_cut_converges_at_every_crash_point :
+  forallb (fun n => forallb (fun j => forallb (fun extra => install_cut_crash_check n j extra) (seq 0 3)) (seq 0 3))
+          (seq 0 (S (length (ev_install_cut 6 9 (ev_fetch 9))))) = true.
+Proof. vm_compute. reflexivity. Qed.
